@@ -22,7 +22,10 @@ RULE = ("random data D (Atom | List | Map | Seq | Absent; nesting depth <= 5, co
         "generated top-down from a random grammar of the family E -> TOP [';'], TOP = ListProds / MapProds / "
         "ProdSequence / item symbol, with every option combination the constructors accept (brackets or none, "
         "delimiter or none, allow_final_delimiter, optional), item symbols that are a terminal, a choice, a "
-        "nullable choice, a single-child chain, a two-level choice or a kept symbol; D is rendered to text with "
+        "nullable choice, a single-child chain, a two-level choice or a kept symbol, or (kind 'direct') DIRECTLY a template "
+        "symbol ROW = ProdSequence / bracket-less list with or without delimiter / bracket-less map / bracketed (optional) "
+        "list or map, used as item of the top list, value of the top map and item / value of the inner LIST / MAP at every "
+        "depth, with empty rows at every position; D is rendered to text with "
         "random white space, line breaks, // and /* */ comments between the tokens (final delimiters where allowed, "
         "a forbidden final delimiter in the reject stream) and parsed with and without the default cleanup; plus "
         "every combination of constructor arguments of the three templates (productions only); plus histories (kind "
@@ -32,7 +35,13 @@ RULE = ("random data D (Atom | List | Map | Seq | Absent; nesting depth <= 5, co
         "(item / value / key symbols of the templates, the template symbols, any other non-terminal; with a text derived "
         "from that symbol or with a text the symbol does not derive), in ~30% of the histories a second parser object "
         "constructed in between (given the SAME keep_symbols set object, an equal set, or - expected to be refused - the "
-        "same template objects under other symbol names) and used interleaved with the first.  Each call is also made on "
+        "same template objects under other symbol names) and used interleaved with the first; calls with debug=True, a "
+        "src_name, the text given as a list / generator of lines; between the calls (also before the first one) 'look' steps "
+        "= the read-only entry points of the parser object: print_detailed_descr(), ParserSummary.gen_detailed_descr(), "
+        "StdCleanuper.gen_detailed_descr(), is_ambiguous(), str()/repr(), str()/gen_productions() of the templates, reading "
+        "terminals / prods_map / parse_table / the cleanuper's sets, the printers and finders of the last returned tree, a "
+        "text that is not accepted (the raised error and its str()); 12 (quick) / 60 (thorough) 'sweep' histories run every "
+        "one of these entry points in turn on a grammar of every item kind with a parse before and after it.  Each call is also made on "
         "a parser object constructed for that call alone (its result must be equal; its raw tree is the model's input).  "
         "Non-trivial = a parsed text whose data contains a container with >= 2 entries or a container nested in a "
         "container; a history: at least two calls with cleanup on one object returned containers.")
@@ -47,9 +56,11 @@ TRUSTED_BASE = [
     "likewise keep_copied: StdCleanuper.make initialises the cleanuper's keep_symbols with a copy of the constructor argument and "
     "changes it only by .add(start symbol)",
     "histories: the model has no parser state besides the cleanup environment made from the constructor arguments (call_step returns it "
-    "unchanged); that the implementation keeps nothing else between calls is compared on the generated histories only (every call "
+    "unchanged, hop_step returns it unchanged for every read-only entry point HLook); that the implementation keeps nothing else "
+    "between calls and that its reporting entry points (description printers, is_ambiguous, str/repr, table readers, error "
+    "construction, tree printers) change nothing is compared on the generated histories only (every call "
     "against the model on the raw tree of a parser object made for that call alone, and against that object's own result), not proved "
-    "of the source",
+    "of the source; which methods are 'read-only entry points' is a hand-made list (LOOKS in harness/props/c05.py)",
 ]
 ASSUMPTIONS = [
     "no symbol has two equal productions (then _make_squash_data on the factorized productions equals the one on the original ones)",
@@ -60,7 +71,8 @@ ASSUMPTIONS = [
 ]
 MODELLED = ("ak/llparser.py ListProds, MapProds (constructor, complete_init, gen_productions, transform_t_elem and helpers), "
             "ProdSequence.gen_productions, LLParser._process_seq_telement, StdCleanuper._make_squash_data/_cleanup, StdCleanuper.make (private "
-            "keep set), a parser object used for a sequence of parse()/cleanup() calls (run_calls); not modelled: "
+            "keep set), a parser object used for a sequence of parse()/cleanup() calls (run_calls) with read-only entry points "
+            "in between (run_ops); not modelled: "
             "tokenizer, parse loop (C01-C04), AnyTokenExcept, verify_grammar, source positions of cleaned elements")
 
 
@@ -917,7 +929,9 @@ def make_history(rng, g, second=None, sweep=False):
         if what == "error":
             t = main["text"]
             cut = t[:rng.randint(0, max(0, len(t) - 1))]        # usually ends inside a container
-            st["text"] = rng.choice([t + rng.choice([" ]", " >", " ) ;", " , ,", " [ {"]), cut, cut, cut + rng.choice([" ,", " |", " ;"]),
+            dl = [i for i, ch in enumerate(t) if ch in ",|;"]
+            after = t[:rng.choice(dl) + 1] if dl else cut         # ends right after a delimiter: the parser fails in a tail symbol
+            st["text"] = rng.choice([t + rng.choice([" ]", " >", " ) ;", " , ,", " [ {"]), cut, after, after, cut + rng.choice([" ,", " |", " ;"]),
                                      "@", rng.choice(["]", ";;", "[ , ,", "{ : }"])])
         return st
 
@@ -949,6 +963,12 @@ def make_history(rng, g, second=None, sweep=False):
         for i, what in enumerate(whats):
             steps.append(look(what=what))
             steps.append(default_call(main if i % 3 != 2 else other, clean=rng.choice([True, True, "two"])))
+        rej = make_case(rng, g, reject=True, max_depth=2, max_len=3)
+        g.pop("_p", None)
+        if rej:
+            # a call that raises (forbidden final delimiter), then the main text once more
+            steps.append(default_call(rej, clean=rng.choice([True, "two", False])))
+            steps.append(default_call(main))
         return {"k": "hist", "g": gg, "steps": steps, "second": "", "start2": None, "sweep": 1}
     steps = []
     p_look = rng.choice([0.0, 0.25, 0.25, 0.5])
@@ -1857,11 +1877,15 @@ LEVEL_TEXT = ("Partial. Proved in Coq for ALL derivation trees (any length, any 
               "list_option_combinations), final_delim_rejected, map_denote + map_dict_semantics (first position, last value), "
               "map_empty_brackets, map_absent_optional, seq_denote (in-parse flattening), squash_item_partial, nested (containers in "
               "containers through one-level choice items, to any depth, incl. containers as sequence elements for the repaired "
-              "cleanup: nested_in_sequence), source_shape (the current source does descend into sequences and copies the keep_symbols "
+              "cleanup: nested_in_sequence; items that are DIRECTLY a template symbol, i.e. raw leaves that are not tokens: "
+              "item_directly_sequence, item_directly_empty_bracketless, Example den_direct_items_satisfiable), source_shape (the current source does descend into sequences and copies the keep_symbols "
               "argument), history_independent (in the model a call returns the parser state unchanged and the k-th result of any "
               "sequence of calls on one parser object is the cleanup of the k-th raw tree, so the denotation theorems hold for every "
-              "call of a history; that the implementation has no memory between calls - keep_symbols, squash data, the templates' "
-              "signature tables, the default start symbol, cached or shared result objects - is NOT proved of the source, it is "
+              "call of a history; introspection_transparent: read-only entry points between the calls change neither the state nor "
+              "any result of the model; that the implementation has no memory between calls - keep_symbols, squash data, the templates' "
+              "signature tables, the default start symbol, cached or shared result objects, parse-table cells sorted / extended / "
+              "created by a description printer, by is_ambiguous(), by the construction of a ParsingError or by debug=True - is NOT "
+              "proved of the source, it is "
               "tested by the history cases: correspondence per call, equality with a parser object made for the call alone, no "
               "mutable object shared between two results, earlier results unchanged). Refuted and kept "
               "visible: squash_item_refuted (a choice symbol below a choice symbol stays a tree element: by design of the "
@@ -1871,7 +1895,7 @@ LEVEL_TEXT = ("Partial. Proved in Coq for ALL derivation trees (any length, any 
               "two-level choices or kept symbols, ordinary multi-child elements between containers (e.g. '(' SEQ ')'), keep_symbols, "
               "AnyTokenExcept items, and everything before the raw tree (tokenizer, skipped text, parse loop: C01-C04).")
 LEVEL_NOTE = ("Trusted: Coq kernel + vm_compute; fidelity of the hand model (checked on ~1000 (quick) / ~11000 (thorough) generated "
-              "texts per run plus 139 constructor-argument combinations plus ~110 (quick) / ~600 (thorough) call histories of 5-12 calls, "
+              "texts per run plus 139 constructor-argument combinations plus ~130 (quick) / ~760 (thorough) call histories of 5-25 steps, "
               "not proved); python dict(); that the tree given to the cleanup "
               "is the one parse(do_cleanup=False) returns; the ast extractor and the harness. The hypothesis `valid` of the theorems is "
               "checked on every implementation tree of the run (VALID part of the observation). Print Assumptions: closed under the "
